@@ -17,7 +17,7 @@ RULE = ("trees {three classes incl. a 131073-byte class that reaches the suffix 
         "tree). Oracle: exit 0 and a parsable report that equals the reference result (partition + replication filter) of the "
         "tree without some subset S of the entries affected by the failing call (the path and - unless the errno is ENOENT, which concerns one directory entry - the other links of the file; the sub-tree for a directory call), S empty (and then every group with the length and hash of the fault-free run) "
         "for FIEMAP faults and probes of absent ignore files; a warning unless the errno is ENOENT; every reported group "
-        "byte-identical. distinct_nontrivial = distinct (tree, k, errno) reached.")
+        "byte-identical; a path whose two opens both failed with ENOENT is not listed at all. distinct_nontrivial = distinct (tree, k, errno) reached.")
 ASSUMPTIONS = ["input validation is not part of the property and is skipped: the stat/realpath of the base directory, the "
                "up-front existence check of input paths given as arguments (their first call) and, when there is only "
                "one input path, every call on it before the walk starts (a run left without any input may fail)", "single-threaded pools (-t 1) for a deterministic history"]
@@ -276,6 +276,13 @@ def evaluate(case):
                     a2, same2 = affected_by(hit[0], e if e == "ENOENT" else "EIO")
                     aff = aff | a2
                     must_be_same = must_be_same and same2
+            # both the O_NOATIME open and its fall-back failed with ENOENT: this path is gone and was never read, so it
+            # may not be listed (even if another link of the same file could be read)
+            must_drop = set()
+            if k2 is not None and e == "ENOENT" and ev.call == "open":
+                hit = [x for x in res["events"] if x.k == k2]
+                if hit and hit[0].call == "open" and hit[0].path == ev.path and hit[0].errno != 0:
+                    must_drop = set(q for q in (ev.path, os.path.realpath(ev.path)) if q in ref_all["files"])
             aff_scanned = sorted(a for a in aff if a in ref_all["files"])
             if must_be_same:
                 candidates = [frozenset()]
@@ -286,6 +293,8 @@ def evaluate(case):
                 base_paths = set().union(*base_groups) if base_groups else set()
                 candidates = [frozenset(), frozenset(aff_scanned), frozenset((base_paths - obs_paths) & set(aff_scanned)),
                               frozenset(a for a in aff_scanned if a not in obs_paths)]
+            if must_drop:
+                candidates = [c for c in candidates if must_drop <= c] or [frozenset(must_drop)]
             accepted = None
             for cand in candidates:
                 if expected_for(cand) == set(obs_groups):
